@@ -25,7 +25,7 @@ def build_case(rng, quick):
     shape = rng.choice([(), (), (2,), (3,), (2, 2)])
     if kind == 'cov' and shape == (2, 2):
         shape = (2,)
-    family = rng.choice(['int', 'dyadic', 'tied', 'mixed', 'narrowint'])
+    family = rng.choice(['int', 'dyadic', 'tied', 'mixed', 'narrowint'] + (['nearmax'] if kind in ('min', 'max', 'mean', 'counter') else []))
     m = rng.randint(1, 6)
     sizes = [rng.choice([0, 0, 1, 1, 2, 3, 5, 8]) for _ in range(m)]
     chunks = [c05.gen_values(rng, k, shape, family) for k in sizes]
@@ -36,6 +36,10 @@ def build_case(rng, quick):
         i, j = rng.sample(alive, 2)
         order.append((i, j))
         alive.remove(j)
+    if rng.random() < 0.2:
+        # an accumulator merged into ITSELF holds what it would hold had it seen its own data twice
+        k = order[-1][0] if order else 0
+        order.append((k, k))
     extra = c05.gen_values(rng, rng.choice([0, 1, 2, 3]), shape, family)
     return dict(kind=kind, chunks=chunks, order=order, family=family, extra=extra)
 
@@ -99,7 +103,7 @@ def oracle(ctx, case, impl):
             ctx.fail(sig, 'merging %s (n=%d) with %s (n=%d) raised %s' % (
                 acclib.KINDS[kind], len(content[i]), acclib.KINDS[kind], len(content[j]), mres), case)
             return
-        if not same_read(rj0, rj1):
+        if i != j and not same_read(rj0, rj1):
             ctx.fail('merge-changes-other:' + kind, 'the merged-in accumulator changed: %s -> %s' % (rj0, rj1), case)
             return
         content[i] = content[i] + content[j]
@@ -148,7 +152,7 @@ def oracle_extra(ctx, case, impl):
     if vals and not isinstance(tail[0], str):
         c05.oracle_check(ctx, kind, ovals, tail[0], case, scale)
     for idx, (i, j) in enumerate(case['order']):
-        if tail[1 + idx] != others_after_merge[j]:
+        if i != j and j != final and tail[1 + idx] != others_after_merge[j]:
             ctx.fail('merge-aliases-other:' + kind, 'accumulating into the receiver after the merge changed the accumulator that had been '
                      'merged in (r%d): %s -> %s' % (j, others_after_merge[j], tail[1 + idx]), case)
             return
@@ -239,7 +243,7 @@ def refusal_cases(ctx):
 
 def check(ctx):
     from harness import formulas
-    formulas.check_formulas(ctx, ['Mean._accumulate_other', 'Variance._accumulate_other'])
+    formulas.check_formulas(ctx, ['Mean._accumulate_other', 'Variance._accumulate_other', 'Covariance._accumulate_other'])
     rng = ctx.rng
     cases = []
     fixed = [
@@ -260,6 +264,8 @@ def check(ctx):
     lines, spans, progs = [], [], []
     for c in cases:
         prog = program(c)
+        if c.get('family') != 'corpus':
+            c['history_ops'] = acclib.gen_history_ops(rng, prog)
         progs.append(prog)
         lines += acclib.model_lines(prog)
         spans.append(acclib.n_outputs(prog))
@@ -270,7 +276,7 @@ def check(ctx):
     for c, prog, k in zip(cases, progs, spans):
         model = acclib.parse_model(mout[pos:pos + k])
         pos += k
-        impl, _ = acclib.run_impl(prog)
+        impl, _ = acclib.run_impl(acclib.apply_history_ops(prog, c.get('history_ops')))
         sizes = [len(ch) for ch in c['chunks']]
         nonempty = [s for s in sizes if s]
         nontriv = (len(set(nonempty)) >= 2) or (0 in sizes and len(sizes) >= 2)
@@ -301,7 +307,7 @@ def replay(ctx, data):
         refusal_cases(ctx)
         return
     case['order'] = [tuple(x) for x in case['order']]
-    impl, _ = acclib.run_impl(program(case))
+    impl, _ = acclib.run_impl(acclib.apply_history_ops(program(case), case.get('history_ops')))
     oracle(ctx, case, impl)
     oracle_extra(ctx, case, impl)
     ctx.case(('replay', case), True, sample=case)
